@@ -42,6 +42,8 @@ def col_alphabet(name, seed, small):
         return domains.lists(seed)
     if t is dict:
         return domains.dicts(seed)
+    if t is object:
+        return domains.objects(seed)
     raise KeyError(name)
 
 
@@ -91,7 +93,7 @@ def check_expr(te, seed, acc, variants=('full',)):
         try:
             for r in rows:
                 try:
-                    expected_vals.append(refexpr.ev(te.node, dict(zip(cols, r))))
+                    expected_vals.append(refexpr.ev(te.ref if te.ref is not None else te.node, dict(zip(cols, r))))
                     keep.append(r)
                 except (ArithmeticError, ValueError) as e:   # InvalidOperation, OverflowError, year out of range
                     acc.count('rows_outside_domain')
@@ -112,6 +114,9 @@ def check_expr(te, seed, acc, variants=('full',)):
             cur = conn.execute(stmt)
             got = cur.fetchall()
         except Exception as e:
+            if te.ref is not None and isinstance(e, beanquery.CompilationError):
+                acc.count('untyped_operand_programs_rejected_by_the_type_checker')     # which casts exist is C05's business
+                return
             acc.violation(f'crash:{crash_fingerprint(e)}',
                           f'SELECT {show(te.node)} over columns {cols} raised {type(e).__name__}: {e}',
                           case(te, seed, variant, 'target'))
